@@ -75,6 +75,8 @@ class OrderMistakeShock(EventABC):
             raise ValueError("orderVolume is required for OrderMistakeShock")
         if not isinstance(settings["orderVolume"], int):
             raise ValueError("orderVolume have to be int")
+        if settings["orderVolume"] <= 0:
+            raise ValueError("orderVolume have to be positive")
         self.order_volume = settings["orderVolume"]
         if "orderTimeLength" not in settings:
             raise ValueError("orderTimeLength is required for OrderMistakeShock")
